@@ -96,6 +96,7 @@ func c13CutCalls() []c13CutCall {
 func c13Cut(c *ev.Ctx, call c13CutCall, class string) {
 	c.Eval()
 	k := c13Case{CutOp: call.Name, CutClass: class}
+	c.Crumb(k)
 	sig, _ := fix.Signer(fK1).Sign(nil, []byte("data"))
 	st := &stubAgent{
 		Keys:    []*agent.Key{{Format: fix.Pub(fK1).Type(), Blob: fix.Pub(fK1).Marshal(), Comment: "one"}, {Format: fix.Pub(fK2).Type(), Blob: fix.Pub(fK2).Marshal(), Comment: "two"}},
@@ -162,6 +163,7 @@ var _ = ssh.Marshal
 func c13Hold(c *ev.Ctx, first string, second c13CutCall) {
 	c.Eval()
 	k := c13Case{HoldOp: first, CutOp: second.Name}
+	c.Crumb(k)
 	sig, _ := fix.Signer(fK1).Sign(nil, []byte("data"))
 	st := &stubAgent{
 		Keys:    []*agent.Key{{Format: fix.Pub(fK1).Type(), Blob: fix.Pub(fK1).Marshal(), Comment: "one"}, {Format: fix.Pub(fK2).Type(), Blob: fix.Pub(fK2).Marshal(), Comment: "two"}},
